@@ -128,19 +128,18 @@ def run(ctx):
         rk = set(s for bi, s in lib.str_consts(rf) if re.fullmatch(r'[a-z]+', s))
         ctx.ob('3f metadata-file-keys-agree', 'K8-table', wf.path, 'the metadata file writer emits version= / salt= / col<i>= and the reader recognises exactly those keys', wk == {'version', 'salt', 'col'} and {'version', 'salt', 'col'} <= rk, 'writer %s reader %s' % (sorted(wk), sorted(rk)))
     # ------------------------------------------------ 4. administration touches only its column
-    PRED = ['index::TableId::is_file_name', 'table::TableId::is_file_name', 'ref_count::RefCountTableId::is_file_name']
     df = ctx.body('column::Column::drop_files')
     if df:
-        ps = df.call_sites(*PRED)
-        used = set(n for s in ps for n in call_names(df.term(s)) if n in PRED)
-        ctx.ob('4a drop_files-consults-all-kinds', 'K9-agreement', df.path, 'drop_files consults the three per-column file-name predicates', used == set(PRED), str(sorted(used)))
-        for s in ps:
-            a = df.term(s)['a'][0]
-            sl = backward_slice(df, [op_place(a)]) if op_place(a) else None
-            ctx.ob('4b predicate-gets-own-column %s' % df.term(s).get('r'), 'K4-provenance', df.path, 'the predicate is applied with the column argument of drop_files', sl is not None and 1 in sl.params, '')
-        # deletion list only from predicate-positive names; removal only of collected names
+        # membership predicates = crate-local bool functions called by drop_files (discovered, not named)
+        ps = [bi for bi, t in df.calls() if bi in df.normal_blocks() and t.get('rty') == 'bool' and any(n in F.bodies for n in call_names(t))]
+        ctx.ob('4a membership-tests-found', 'anchor', df.path, 'drop_files decides membership through crate-local boolean predicate(s)', len(ps) >= 1, '%d predicate call(s)' % len(ps))
+        for s2 in ps:
+            a0 = df.term(s2)['a'][0] if df.term(s2)['a'] else None
+            sl = backward_slice(df, [op_place(a0)]) if a0 is not None and op_place(a0) else None
+            isconst = a0 is not None and 'i' in a0
+            ctx.ob('4b predicate-gets-own-column %s' % df.term(s2).get('r'), 'K4-provenance', df.path, 'the predicate is applied with the unmodified column argument of drop_files',
+                   sl is not None and 1 in sl.params and not sl.binops and not isconst, 'binops %s' % (sorted(sl.binops) if sl else None))
         pushes = [bi for bi, t in df.calls() if call_matches(t, ['re:Vec.*::push$'])]
-        # remove the "predicate true" edges: the push must become unreachable
         cut = set()
         for bi in df.normal_blocks():
             t = df.term(bi)
@@ -149,28 +148,52 @@ def run(ctx):
                 if any(b2 in ps for b2, _ in sl.call_sites) and not sl.binops:
                     cut.add((bi, t['ts'][1]))
         w = df.find_path([0], set(pushes), removed_edges=cut) if pushes else ['?']
-        ctx.ob('4c only-matching-names-collected', 'K3-guard', df.path, 'a file name is put on the deletion list only on a true outcome of one of the three predicates', len(cut) == 3 and w is None,
+        ctx.ob('4c only-matching-names-collected', 'K3-guard', df.path, 'a file name is put on the deletion list only on a true outcome of a membership predicate', len(cut) == len(ps) and len(cut) >= 1 and w is None,
                'predicate branches %d; path %s' % (len(cut), lib.short_path(df, w) if w else ''))
         rm = df.call_sites('std::fs::remove_file')
         ctx.ob('4d removal-anchors', 'anchor', df.path, 'one remove_file site, fed by the collected list', len(rm) == 1 and len(pushes) == 1, '')
-    for mod, kind in (('index::TableId', 'index'), ('table::TableId', 'table'), ('ref_count::RefCountTableId', 'refcount')):
-        a, b = F.body(mod + '::is_file_name'), F.body(mod + '::file_name')
-        if not a or not b:
-            ctx.ob('4e name-format-anchor %s' % mod, 'anchor', mod, 'is_file_name and file_name exist', False, '')
-            continue
-        ta = [raw for bi, tk, raw in lib.fmt_templates(a)]
-        tb = [raw for bi, tk, raw in lib.fmt_templates(b)]
-        ok = len(ta) == 1 and len(tb) == 1 and tb[0].startswith(ta[0][:-1]) and ta[0][:-1].endswith('_') and ta[0][1:].startswith(kind + '_')
-        ctx.ob('4e predicate-is-prefix-of-name-format %s' % mod, 'K8-table', mod + '::is_file_name',
-               'the predicate format "<kind>_<col:02>_" is a byte prefix of the file-name format and ends with the separator (column 1 must not match column 10..19)', ok, 'predicate %r name %r' % (ta, tb))
-    kinds = set()
+    # file-name formats (writers) and membership predicates (whatever drop_files / deplace_column call)
+    writers = {}
     for mod in ('index::TableId', 'table::TableId', 'ref_count::RefCountTableId'):
-        a = F.body(mod + '::is_file_name')
-        if a:
-            for bi, tk, raw in lib.fmt_templates(a):
-                if tk and tk[0][0] == 'lit':
-                    kinds.add(tk[0][1])
-    ctx.ob('4f kinds-distinct', 'K8-table', '-', 'the three file kinds use distinct, non-prefixing name prefixes', len(kinds) == 3 and not any(x != y and x.startswith(y) for x in kinds for y in kinds), str(sorted(kinds)))
+        wb = F.body(mod + '::file_name')
+        if wb is None:
+            ctx.ob('4e name-format-anchor %s' % mod, 'anchor', mod, 'file_name exists', False, '')
+            continue
+        for bi, tk, raw in lib.fmt_templates(wb):
+            if tk and tk[0][0] == 'lit':
+                writers[tk[0][1]] = (mod, tk, raw)
+    ctx.ob('4f kinds-distinct', 'K8-table', '-', 'the three file kinds use distinct, non-prefixing name prefixes', len(writers) == 3 and not any(x != y and x.startswith(y) for x in writers for y in writers), str(sorted(writers)))
+    colsig = set(w[1][1] for w in writers.values() if len(w[1]) > 1 and w[1][1][0] == 'arg')
+    ctx.ob('4e0 column-placeholder', 'anchor', '-', 'the three file-name formats print the column with one common placeholder format, followed by "_"',
+           len(colsig) == 1 and all(len(w[1]) > 2 and w[1][2][0] == 'lit' and w[1][2][1].startswith('_') for w in writers.values()), str(colsig))
+    for user in ('column::Column::drop_files', 'migration::deplace_column'):
+        ub = F.body(user)
+        if ub is None:
+            continue
+        kinds_seen = set()
+        ntpl = 0
+        for c in sorted(F.transitive_callees([user])):
+            cb = F.body(c)
+            if cb is None:
+                continue
+            for bi2, sc in lib.str_consts(cb):
+                if sc in ('index', 'table', 'refcount'):
+                    kinds_seen.add(sc + '_')
+            for bi2, tk, raw in lib.fmt_templates(cb):
+                if not tk:
+                    continue
+                if tk[0][0] == 'lit' and tk[0][1] in writers:
+                    kinds_seen.add(tk[0][1])
+                for i, tok in enumerate(tk):
+                    if tok in colsig:
+                        ntpl += 1
+                        nxt = tk[i + 1] if i + 1 < len(tk) else None
+                        ok = nxt is not None and nxt[0] == 'lit' and nxt[1].startswith('_')
+                        ctx.ob('4e column-number-delimited %s in %s' % (user.split('::')[-1], c), 'K8-table', c,
+                               'wherever the column number is formatted for a file-name test it is closed by the "_" separator (else column 1 matches 10..19 and column 10 matches 100..109)',
+                               ok, 'template %r' % raw)
+        ctx.ob('4e1 column-format-used %s' % user, 'anchor', user, 'the membership test formats the column number with the file-name placeholder', ntpl >= 1, '%d templates' % ntpl)
+        ctx.ob('4e2 all-kinds-tested %s' % user, 'K9-agreement', user, 'the membership test of %s names the three file kinds of a column' % user.split('::')[-1], kinds_seen >= set(writers), 'kinds: %s' % sorted(kinds_seen))
     # every entry that deletes or rewrites opens the database first
     lib.callers_confined(ctx, '4g drop_files-callers', F, ['column::Column::drop_files'], {'db::Db::remove_column_files', 'migration::clear_column'}, 'column files are deleted only by remove_column_files and clear_column', required=['db::Db::remove_column_files'])
     lib.callers_confined(ctx, '4h remove_column_files-callers', F, ['db::Db::remove_column_files'], {'db::Db::drop_last_column', 'db::Db::reset_column'}, 'remove_column_files is called only by drop_last_column / reset_column', required=['db::Db::drop_last_column', 'db::Db::reset_column'])
